@@ -14,8 +14,12 @@ The real HeapBalancerSink / ApertureBalancerSink is driven with
     joins, leaves of unknown members and re-joins),
   * a scripted `random` in scales.loadbalancer.{base,heap,aperture} (values logged).
 Direction A: TLC -simulate behaviours of HeapBalancer / LbBase stepped on the real object with a
-state projection compared after every step.  Direction B: seeded random and systematically
-enumerated histories.  Every verdict is decided by TLC on BalancerAbs clauses.
+state projection compared after every step (heap array, loads, down marks, downq chain; _servers,
+heap endpoints, init gate), and, for C03, TLC's shortest counterexample on the model of heap.py
+as found (HeapBalancer_6u.cfg, Repaired = FALSE) replayed on the real class: it yields a
+VIOLATION exactly when the tree under check still lacks fixes/C03-heap-fixup.diff.
+Direction B: seeded random and systematically enumerated histories.  Every verdict is decided by
+TLC on BalancerAbs clauses (env PROP selects the property, so one trace format serves three checks).
 """
 import random
 
@@ -36,6 +40,10 @@ ASSUMPTIONS = [
   'internal projections (node.load/index, _heap, _downq, _idle_endpoints) are read when present; '
   'C04.conserved and the heap half of C05.membership degrade to the observable clauses otherwise',
   'TLC exhaustive only within the stated constants (members, loads, nodes, notifications)',
+  'the model-checked HeapBalancer configs model heap.py WITH fixes/C03-heap-fixup.diff (Repaired = TRUE); the '
+  'variant as found (Repaired = FALSE) is kept as a counterexample generator (expect_violation)',
+  'a livelock of the code under test is cut by a CPU-time watchdog (10 s) and an exception it raises into its '
+  'caller is recorded; the history recorded so far is judged in both cases',
 ]
 RULE = {
   'C03': 'seeded random histories of dispatch / completion (any order, scripted randint) / channel down-up / '
